@@ -25,7 +25,8 @@ MANIFEST = dict(
          'from pool.py on every run equal the model; the message stream is, per job taken, ACK(job,i,time,pid) '
          'followed by nothing (refused / loop ended) or task execution and exactly one READY(job,i); the event '
          'trace is accepted by the protocol monitor (no job taken before the previous READY, no run before '
-         'ACK/SYN); a refused job consults no behaviour/memory oracle and does not count; quota theorems '
+         'ACK/SYN); a termination request inside a task ends the trace right after the execution started (no '
+         'READY, no further job, not counted); a refused job consults no behaviour/memory oracle and does not count; quota theorems '
          '(completed <= N, EX_RECYCLE iff completed = N, never returns without quota); unserialisable result => one '
          'encoding-error READY and the loop continues; _ensure_messages_consumed true iff the counter reaches '
          'completed within 300 polls; process exit status (Worker.__call__/_do_exit) is EX_RECYCLE exactly when workloop '
@@ -33,8 +34,8 @@ MANIFEST = dict(
          'owner pid = pid of the ACK, cancelled+handshake => NACK, no callback, no owner. Correspondence of the real '
          'workloop / ResultHandler+ApplyResult on scripted cases, every event compared in Coq.',
     note='Trusted: Coq kernel, translate/kernels/worker.py (+pykernel.FuncTr), Lib/PyVal.v, harness fakes (scripted '
-         'pipes, sentinel, clock, mem_rss, counter, pickling put). Residue: signal arrival inside the task '
-         '(C05/C08, defect D2), a put of ACK that raises, os.getpid() being the real pid, SIGINT ignoring.',
+         'pipes, sentinel, clock, mem_rss, counter, pickling put, faked os._exit). Residue: signal delivery '
+         '(C05/C08; here an oracle), a put of ACK that raises, os.getpid() being the real pid, SIGINT ignoring.',
     technique='Coq proof over translator-regenerated kernels + skeleton check + differential correspondence with an in-Coq protocol monitor',
     ref='5.3',
 )
@@ -69,6 +70,8 @@ def c_beh(b):
         return '(RaisesUnser %s)' % cz(b[1])
     if k == 'base':
         return '(RaisesBase %s)' % cz(b[1])
+    if k == 'term':
+        return '(Terminated %s)' % cz(b[1])
     raise ValueError(b)
 
 
@@ -80,9 +83,10 @@ def c_synev(e):
 
 def c_inev(e):
     if e[0] == 'msg':
-        _, ty, job, i, t, beh, syn, mem = e
-        return '(RMsg (mk_req %s %s %s %s %s %s %s))' % (
-            cz(ty), cz(job), oz(i), cz(t), c_beh(beh), clist(syn, c_synev), cz(mem))
+        _, ty, job, i, t, beh, syn, mem = e[:8]
+        term = bool(e[8]) if len(e) > 8 else False
+        return '(RMsg (mk_req %s %s %s %s %s %s %s %s))' % (
+            cz(ty), cz(job), oz(i), cz(t), c_beh(beh), clist(syn, c_synev), cz(mem), cbool(term))
     return SIMPLE[e[0]]
 
 
@@ -139,7 +143,7 @@ def c_ev(e):
 
 
 def c_exit(x):
-    k, code = x
+    k, code = x[0], x[1]
     if k == 'ret':
         return '(XReturn %s)' % cz(need_int(code))
     if k == 'sysexit':
@@ -148,6 +152,10 @@ def c_exit(x):
         return 'XAssert'
     if k == 'starved':
         return 'XStarved'
+    if k == 'taskexc':
+        return '(XTaskExc %s %s)' % (cbool(x[1]), cz(need_int(x[2])))
+    if k == 'terminated':
+        return '(XTerminated %s)' % cz(need_int(code))
     raise Unrepresentable('workloop left by %r' % (x,))
 
 
@@ -225,6 +233,7 @@ def to_coq(c, o):
 # ------------------------------------------------------------------ generation
 BEHS = [['ret', 5], ['ret', 0], ['retu'], ['raise', 1], ['raise', 2], ['raiseu', 3], ['base', 1],
         ['base', 2], ['base', 3]]
+TERM_CODES = [-241, -241, -254, 0, 1, 155]
 NONJOB = [['timeout'], ['eintr'], ['falsy']]
 TERMINAL = [['shutdown'], ['eof'], ['ioerr'], ['none']]
 
@@ -249,10 +258,12 @@ def gen_syn(rng, synfd, forced=None):
 
 
 def gen_job(rng, jid, t, synfd, beh=None, syn=None, ty=2):
-    return ['msg', ty, jid, rng.choice([None, None, 0, 3, 17]), t,
-            beh if beh is not None else rng.choice(BEHS),
+    if beh is None:
+        beh = rng.choice(BEHS) if rng.random() > 0.03 else ['term', rng.choice(TERM_CODES)]
+    return ['msg', ty, jid, rng.choice([None, None, 0, 3, 17]), t, beh,
             syn if syn is not None else gen_syn(rng, synfd),
-            rng.choice([0, -1, 50, 100, 100, 101, 150, 99])]
+            rng.choice([0, -1, 50, 100, 100, 101, 150, 99]),
+            1 if rng.random() < 0.06 else 0]
 
 
 def gen_cfg(rng):
@@ -351,6 +362,15 @@ def boundary_wcases(full=True):
                         ins=[['msg', 2, 1, None, 1, ['ret', 1], [['msg', ty]], 0], ['shutdown']]))
     out.append(dict(base, maxtasks=None, ins=[]))
     out.append(dict(base, maxtasks=None, synfd=9, ins=[['msg', 2, 1, None, 1, ['ret', 1], [['timeout']], 0]]))
+    # termination request: every behaviour with the flag set, and the handler itself, as the
+    # second of three jobs, with and without handshake and quota
+    for beh in BEHS + [['term', -241], ['term', 1], ['term', 155]]:
+        for synfd in (None, 9):
+            for quota in (None, 2):
+                c = dict(base, maxtasks=quota, synfd=synfd)
+                c['ins'] = [['msg', 2, n, None, n, beh if n == 1 else ['ret', n],
+                             [['msg', 0]] if synfd else [], 0, 1 if n == 1 else 0] for n in range(3)] + [['shutdown']]
+                out.append(c)
     # counter: reached at poll 0, 1, 299, never
     for reads, dflt in (([], 5), ([0], 5), ([0] * 299, 5), ([0] * 300, 5), ([0] * 300, 0), ([2, 0], 0)):
         c = dict(base, maxtasks=2, counter=dict(reads=reads, dflt=dflt))
@@ -492,11 +512,11 @@ def correspond(res, n):
         jobs = [e for e in c['ins'] if e[0] == 'msg']
         bump(hist['jobs'], len(jobs))
         bump(hist['quotas'], c['maxtasks'])
-        bump(hist['exits'], '%s:%s' % tuple(o['exit']))
+        bump(hist['exits'], ':'.join(str(v) for v in o['exit']))
         if c.get('via_call'):
             bump(hist['via_call_status'], o['call']['osexit'])
         for e in jobs:
-            bump(hist['behaviours'], e[5][0])
+            bump(hist['behaviours'], e[5][0] + ('+termflag' if len(e) > 8 and e[8] else ''))
             if c['synfd'] is not None:
                 last = e[6][-1] if e[6] else ['starved']
                 bump(hist['syn_answers'], 'msg%s' % last[1] if last[0] == 'msg' else last[0])
@@ -547,7 +567,7 @@ def run(res):
     correspond(res, n)
     res.assumptions += [
         'the task function, pipes, sentinel, clock, mem_rss() and the consumed-result counter are oracles: theorems hold for all of them; the harness scripts them',
-        'signals arriving inside the task function are not modelled (C05/C08); the code as it is turns a SystemExit raised inside the task into a failure READY and keeps looping (defect D2) and the model says the same',
+        'when a termination signal arrives is an oracle (behaviour Terminated / flag q_term); signal delivery itself belongs to C05/C08',
         'put() of an ACK never raises (its payload is ints); a second failure of the fallback READY put is not modelled',
         'parent side is one ApplyResult behind ResultHandler.on_ack/on_ready; MapResult/IMapIterator acknowledgement belongs to C02; closed parent/worker composition belongs to the pool model (C01)',
     ]
